@@ -8,8 +8,12 @@ from mc.engine import Harness, Result, V
 from mc.heapfp import try_fingerprint
 from mc.world import reset_globals
 
-PATHS = ['a.x', 'a.y', 'a.b.x', 'a.b.y', 'a.param', 'x', 'c.y']
+PATHS = ['a.x', 'a.y', 'a.b.x', 'a.b.y', 'a.param', 'x', 'c.y', 'a.b.c.x']
 BOT = '<unresolved>'
+
+
+class Boom(Exception):
+    pass
 
 
 def dep_sets(tier):
@@ -48,6 +52,12 @@ class C07(Harness):
         for ds in dep_sets(tier):
             for init in (None, 'M0'):
                 out.append({'deps': list(ds), 'a0': init})
+        # the three-object path with objects missing at construction and attached later
+        out.append({'deps': ['a.b.c.x'], 'a0': 'M0', 'pre': [['M0', 'b', None], ['L0', 'c', 'L1']]})
+        out.append({'deps': ['a.b.c.x'], 'a0': 'M0', 'pre': [['L0', 'c', 'L1']]})
+        # two watching methods, each with a single path through the same sub-object(s)
+        for d1, d2 in ((['a.b.x'], ['a.b.y']), (['a.x'], ['a.b.x']), (['a.b.x'], ['a.b.x'])):
+            out.append({'deps': d1, 'deps2': d2, 'a0': 'M0'})
         for fid, deps, a0, hist in PINNED:
             out.append({'deps': deps, 'a0': a0, 'pinned': hist, 'finding': fid})
         return out
@@ -55,7 +65,7 @@ class C07(Harness):
     def depth(self, tier, cfg):
         if 'pinned' in cfg:
             return 0
-        deep = cfg['deps'] in (['a.b.x'], ['a.param']) and cfg['a0'] == 'M0'
+        deep = (cfg['deps'] in (['a.b.x'], ['a.param']) and cfg['a0'] == 'M0') or bool(cfg.get('pre'))
         if tier == 'quick':
             return 3 if deep else 2
         return 4 if deep else 3
@@ -65,24 +75,37 @@ class C07(Harness):
         import param
         reset_globals()
         log = []
-        Leaf = type('Leaf', (param.Parameterized,), {'x': param.Parameter(0), 'y': param.Parameter(0)})
+        Leaf = type('Leaf', (param.Parameterized,), {'x': param.Parameter(0), 'y': param.Parameter(0), 'c': param.Parameter(None)})
         Mid = type('Mid', (param.Parameterized,), {'x': param.Parameter(0), 'y': param.Parameter(0), 'b': param.Parameter(None)})
+
+        flags = {'raise': False}
 
         def cb(self):
             log.append('cb')
+            if flags['raise']:
+                flags['raise'] = False
+                raise Boom('dependent method')
         cb = param.depends(*cfg['deps'], watch=True)(cb)
-        Top = type('Top', (param.Parameterized,), {'a': param.Parameter(None), 'c': param.Parameter(None), 'x': param.Parameter(0), 'cb': cb})
+        ns = {'a': param.Parameter(None), 'c': param.Parameter(None), 'x': param.Parameter(0), 'cb': cb}
+        if cfg.get('deps2'):
+            def cb2(self):
+                log.append('cb2')
+            ns['cb2'] = param.depends(*cfg['deps2'], watch=True)(cb2)
+        Top = type('Top', (param.Parameterized,), ns)
         # L2 and M1 are container-like (empty => falsy): code that tests sub-objects by truthiness mistakes them for None
         FLeaf = type('FLeaf', (Leaf,), {'__len__': lambda self: 0})
         FMid = type('FMid', (Mid,), {'__len__': lambda self: 0})
         objs = {'L0': Leaf(x=0, y=0), 'L1': Leaf(x=1, y=0), 'L2': FLeaf(x=0, y=1)}
         objs['M0'] = Mid(x=0, y=0, b=objs['L0'])
         objs['M1'] = FMid(x=0, y=1, b=objs['L1'])
-        model = {'L0': {'x': 0, 'y': 0}, 'L1': {'x': 1, 'y': 0}, 'L2': {'x': 0, 'y': 1},
+        model = {'L0': {'x': 0, 'y': 0, 'c': None}, 'L1': {'x': 1, 'y': 0, 'c': None}, 'L2': {'x': 0, 'y': 1, 'c': None},
                  'M0': {'x': 0, 'y': 0, 'b': 'L0'}, 'M1': {'x': 0, 'y': 1, 'b': 'L1'},
                  'T': {'a': cfg['a0'], 'c': 'L2', 'x': 0}}
+        for o, n, v in cfg.get('pre', []):           # set up before the parent exists
+            setattr(objs[o], n, objs[v] if v else None)
+            model[o][n] = v
         objs['T'] = Top(a=objs[cfg['a0']] if cfg['a0'] else None, c=objs['L2'])
-        return dict(objs=objs, log=log, classes=(Leaf, Mid, Top)), model
+        return dict(objs=objs, log=log, classes=(Leaf, Mid, Top), flags=flags), model
 
     def enabled(self, cfg, model):
         ops = []
@@ -99,6 +122,14 @@ class C07(Harness):
         for o in ('M0', 'M1'):
             for n in ('x', 'y'):
                 ops.append(['set', o, n, 1 - model[o][n]])
+        if any('.c.' in p for p in cfg['deps'] + cfg.get('deps2', [])):
+            for v in (None, 'L1', 'L2'):
+                ops.append(['attach', 'L0', 'c', v])
+            ops.append(['attach', 'L2', 'c', 'L1'])
+        if len(cfg['deps']) == 1 and not cfg.get('deps2'):
+            # the dependent method raises while it is being invoked for this replacement
+            ops.append(['attach_r', 'M0', 'b', 'L2'])
+            ops.append(['attach_r', 'T', 'a', 'M1'])
         ops.append(['set', 'T', 'x', 1 - model['T']['x']])
         ops.append(['set', 'L0', 'x', model['L0']['x']])      # same-value assignment
         return ops
@@ -142,11 +173,18 @@ class C07(Harness):
         for i, op in enumerate(history):
             last = i == len(history) - 1
             before = {p: self.reach(model, p) for p in cfg['deps']}
+            before2 = {p: self.reach(model, p) for p in cfg.get('deps2', [])}
             del log[:]
             try:
-                if op[0] == 'attach':
-                    setattr(objs[op[1]], op[2], objs[op[3]] if op[3] else None)
+                if op[0] in ('attach', 'attach_r'):
                     model[op[1]][op[2]] = op[3]
+                    if op[0] == 'attach_r':
+                        w['flags']['raise'] = True
+                    try:
+                        setattr(objs[op[1]], op[2], objs[op[3]] if op[3] else None)
+                    except Boom:
+                        pass
+                    w['flags']['raise'] = False
                 else:
                     setattr(objs[op[1]], op[2], op[3])
                     model[op[1]][op[2]] = op[3]
@@ -155,20 +193,30 @@ class C07(Harness):
                     vs.append(V('op-raises', '%r raised %r (deps %r)' % (op, e, cfg['deps']), op=op[0], deps='+'.join(cfg['deps']), exc=type(e).__name__))
                 break
             after = {p: self.reach(model, p) for p in cfg['deps']}
+            if cfg.get('deps2') and last:
+                b2 = before2
+                a2 = {p: self.reach(model, p) for p in cfg['deps2']}
+                must2 = [p for p in cfg['deps2'] if b2[p][1] != BOT and a2[p][1] != BOT and b2[p][1] != a2[p][1]]
+                either2 = [p for p in cfg['deps2'] if (b2[p][1] == BOT or a2[p][1] == BOT) and (b2[p][0] != a2[p][0] or (b2[p][1] == BOT) != (a2[p][1] == BOT))]
+                n2 = log.count('cb2')
+                if (must2 and n2 != 1) or (not must2 and not either2 and n2 != 0) or n2 > 1:
+                    vs.append(V('fires-exactly-once', 'history %r: second method (depends on %r): reached %r -> %r but it ran %d times' % (
+                        history, cfg['deps2'], [b2[p][1] for p in cfg['deps2']], [a2[p][1] for p in cfg['deps2']], n2), got=n2, op=op[0],
+                        deps='+'.join(cfg['deps']) + '|' + '+'.join(cfg['deps2']), target='second-method'))
             must, either = [], []
             for p in cfg['deps']:
                 (c0, v0, r0), (c1, v1, r1) = before[p], after[p]
                 if v0 != BOT and v1 != BOT:
                     if v0 != v1:
                         must.append(p)
-                    elif (r0 or r1) and (c0 != c1 or op[0] == 'attach'):
+                    elif (r0 or r1) and (c0 != c1 or op[0] in ('attach', 'attach_r')):
                         either.append(p)       # equal, but the comparison involves Parameterized values (no defined equality)
                 elif c0 != c1 or (v0 == BOT) != (v1 == BOT):
                     either.append(p)           # the path (or a prefix of it) changed resolution
-            n = len(log)
+            n = log.count('cb')
             if not last:
                 continue
-            key = dict(op=op[0], deps='+'.join(cfg['deps']), target='%s.%s' % (op[1], op[2]) if op[0] == 'attach' else 'leaf')
+            key = dict(op=op[0], deps='+'.join(cfg['deps']), target='%s.%s' % (op[1], op[2]) if op[0] in ('attach', 'attach_r') else 'leaf')
             if 'pinned' in cfg:
                 key['pinned'] = cfg['finding']
             if must:
@@ -186,7 +234,7 @@ class C07(Harness):
                     vs.append(V('fires-only-on-change', 'history %r: no value reached through %r changed (reached %r) but cb ran %d times' % (
                         history, cfg['deps'], {p: after[p][1] for p in after}, n), got=n, **key))
             # detached objects keep no watcher installed on the parent's behalf
-            keep = self.on_path(model, cfg['deps'])
+            keep = self.on_path(model, cfg['deps'] + cfg.get('deps2', []))
             top = objs['T']
             for name, o in objs.items():
                 if name in keep or name == 'T':
